@@ -13,6 +13,17 @@
 (*    names, as CALL and as PUSH.                                          *)
 (*  kind "conflict": two registrations mapping to one name: registration   *)
 (*    must fail (observed in a child process).                             *)
+(*  kind "live": WHEN a piece of the routing configuration was installed,  *)
+(*    relative to the sessions it has to serve.  `when` says how the       *)
+(*    unknown handlers came to be: "before" the first session (the usual   *)
+(*    start-up order), "after" it (first installation on a peer with a     *)
+(*    live session), "replaced" (U1 before, U2 after: requests must reach  *)
+(*    the current one), "never"; `late` is the part of the route set that  *)
+(*    is registered only after the first session exists.  The scenario is  *)
+(*    a list of steps (configure, connect, request round); every request   *)
+(*    round is made on the OLD session (before and after the late          *)
+(*    configuration) and on a NEW one, and carries the unknown handler     *)
+(*    that is current at that point (`expunknown`, "" = none: Not Found).  *)
 (***************************************************************************)
 EXTENDS Naturals, Sequences, FiniteSets, TLC, Json, IOUtils
 CONSTANTS Export, MaxLen
@@ -41,12 +52,32 @@ ConflictCases == {[fam |-> "router", kind |-> "conflict", mapper |-> m, pair |->
                m \in {"http", "rpc"}, p \in {"CtlA+Ctl__A", "CtlA+CtlA", "FnCall+FnCall", "PshA+PshA", "none"}}
             \cup {[fam |-> "router", kind |-> "conflict", mapper |-> m, pair |-> p, expectconflict |-> (m = "http")] :
                m \in {"http", "rpc"}, p \in {"CtlTwin", "PshTwin"}}
+\* --- kind "live": configuration installed before / after a session exists -------------------------------------
+LiveSets == {{"CtlA", "PshA"}, {"Ctl_B", "FnCall", "FnPush"}, {"SameCall", "SamePush", "CtlA"}}
+Whens == {"before", "after", "replaced", "never"}
+\* the unknown handler that is current in phase 1 (before the late configuration) and in phase 2 (after it)
+UnknownAt(w, phase) == CASE w = "never" -> ""
+                         [] w = "before" -> "U1"
+                         [] w = "after" -> IF phase = 1 THEN "" ELSE "U1"
+                         [] w = "replaced" -> IF phase = 1 THEN "U1" ELSE "U2"
+St(op, id, items, sess, exp) == [op |-> op, id |-> id, items |-> items, sess |-> sess, expunknown |-> exp]
+LiveSteps(w, pre, lt) ==
+     (IF w \in {"before", "replaced"} THEN <<St("unknown", "U1", {}, "", "")>> ELSE <<>>)
+  \o <<St("route", "", pre, "", ""), St("connect", "", {}, "old", ""), St("requests", "", {}, "old", UnknownAt(w, 1))>>
+  \o <<St("route", "", lt, "", "")>>
+  \o (IF w \in {"after", "replaced"} THEN <<St("unknown", IF w = "replaced" THEN "U2" ELSE "U1", {}, "", "")>> ELSE <<>>)
+  \o <<St("requests", "", {}, "old", UnknownAt(w, 2)), St("connect", "", {}, "new", ""),
+       St("requests", "", {}, "new", UnknownAt(w, 2)), St("requests", "", {}, "old", UnknownAt(w, 2))>>
+LiveSplits == UNION {{<<s \ lt, lt>> : lt \in SUBSET s} : s \in LiveSets}      \* <<registered before the first session, after it>>
+LiveCases == {[fam |-> "router", kind |-> "live", mapper |-> m, group |-> g, when |-> w, set |-> sp[1], late |-> sp[2],
+               steps |-> LiveSteps(w, sp[1], sp[2])] :
+               m \in {"http", "rpc"}, g \in {"", "g/h"}, w \in Whens, sp \in LiveSplits}
 VARIABLES c, done
 vars == <<c, done>>
-Init == c \in MapCases \cup RegCases \cup ConflictCases /\ done = FALSE
+Init == c \in MapCases \cup RegCases \cup ConflictCases \cup LiveCases /\ done = FALSE
 Run == ~done /\ done' = TRUE /\ UNCHANGED c
 Spec == Init /\ [][Run]_vars
-OracleSane == c.kind \in {"map", "reg", "conflict"}
+OracleSane == c.kind \in {"map", "reg", "conflict", "live"}
 Emit == Export = "" \/ Serialize(ToJson(c) \o "\n", Export,
           [format |-> "TXT", charset |-> "UTF-8", openOptions |-> <<"WRITE", "CREATE", "APPEND">>]).exitValue = 0
 =============================================================================
